@@ -3,7 +3,6 @@ package main
 import (
 	"bytes"
 	"fmt"
-	"io"
 	"os"
 	"path/filepath"
 	"syscall"
@@ -55,6 +54,7 @@ func specialOutputs(e *env) []func() {
 					c := &cli.Cmd{Dir: d, Timeout: 60 * time.Second}
 					target := ""
 					collected := make(chan []byte, 1)
+					toolEnded := make(chan struct{})
 					collect := false
 					switch k {
 					case "devnull":
@@ -66,15 +66,38 @@ func specialOutputs(e *env) []func() {
 							return
 						}
 						collect = true
+						// "a FIFO somebody reads": the reader has the FIFO open BEFORE
+						// the tool starts (the tool opens its output for reading and
+						// writing, which does not wait for a reader; a pipe that nobody
+						// else holds open discards what was written when the tool closes
+						// it, and the tool cannot know). The reader collects until the
+						// tool has ended and the buffer is empty.
+						fd, err := syscall.Open(target, syscall.O_RDONLY|syscall.O_NONBLOCK, 0)
+						if err != nil {
+							r.Inconclusive("fifo reader: %v", err)
+							return
+						}
 						go func() {
-							f, err := os.OpenFile(target, os.O_RDONLY, 0)
-							if err != nil {
-								collected <- nil
-								return
+							defer syscall.Close(fd)
+							var all []byte
+							buf := make([]byte, 65536)
+							ended := false
+							for {
+								n, _ := syscall.Read(fd, buf)
+								if n > 0 {
+									all = append(all, buf[:n]...)
+									continue
+								}
+								if ended {
+									collected <- all
+									return
+								}
+								select {
+								case <-toolEnded:
+									ended = true // one more pass: what was written before the end
+								case <-time.After(500 * time.Microsecond):
+								}
 							}
-							b, _ := io.ReadAll(f)
-							f.Close()
-							collected <- b
 						}()
 					case "dev-stdout-pipe":
 						target = "/dev/stdout"
@@ -101,28 +124,26 @@ func specialOutputs(e *env) []func() {
 					r.Eval(1)
 					r.Distinct(desc)
 					r.Tab("special_output_x_op", k+"|"+o.name)
+					var got []byte
 					if collect {
-						// release a reader still waiting for a writer to show up
-						if w, err := os.OpenFile(target, os.O_WRONLY|syscall.O_NONBLOCK, 0); err == nil {
-							w.Close()
+						close(toolEnded)
+						select {
+						case got = <-collected:
+						case <-time.After(60 * time.Second): // watchdog only
+							r.Inconclusive("%s: the FIFO reader did not finish", desc)
+							return
 						}
 					}
 					if res.Err != nil {
 						r.Inconclusive("%s: driver error %v", desc, res.Err)
 						return
 					}
-					var got []byte
 					verifiable := true
 					switch k {
 					case "devnull", "symlink-to-devnull":
 						verifiable = false
 					case "fifo":
-						select {
-						case got = <-collected:
-						case <-time.After(20 * time.Second):
-							r.Inconclusive("%s: the FIFO reader did not finish", desc)
-							return
-						}
+						// collected above
 					case "dev-stdout-pipe", "dev-fd-1":
 						got = res.Stdout
 					case "dev-stdout-file":
